@@ -479,3 +479,12 @@ def run(ctx):
     counting.cnt1(ctx, lib)
     counting.cnt2(ctx, lib)
     counting.chr1(ctx, lib)
+    counting.fch1(ctx, lib)
+    # the union's necessary conditions (shared with C02): each of them, when broken, loses a test case
+    from .C02 import uni, uni4
+    ctx.rule("UNI-1", "two alternatives are merged into a character class only under dominating single-code-point guards on both")
+    ctx.rule("UNI-2", "`x?` is built from the alternative that is not the one known to be empty")
+    ctx.rule("UNI-3", "a removed common prefix is re-attached in front and a removed common suffix behind the factored rest")
+    uni(ctx, lib)
+    ctx.rule("UNI-4", "a path of the union that returns only one alternative knows the other is absent, equal, or (class tokens) included in it per a table verified against the Unicode tables")
+    uni4(ctx, prog, lib)
